@@ -157,6 +157,17 @@ def run_one(a):
     m = re.search(r"(ERROR: AddressSanitizer[^\n]*|runtime error:[^\n]*|SUMMARY: [^\n]*)", err)
     if m:
         san = m.group(1)[:160]
+        # where: source file of a UBSan report, innermost function of an ASan report
+        w = re.search(r"([A-Za-z0-9_/]+\.(?:cpp|h)):\d+:\d+: runtime error", err)
+        if w:
+            san += " @" + os.path.basename(w.group(1))
+        else:
+            w = re.search(r"#0 0x[0-9a-f]+ in (\S+)", err)
+            if w and w.group(1).startswith("__"):
+                w2 = re.search(r"#1 0x[0-9a-f]+ in (\S+)", err)
+                w = w2 or w
+            if w:
+                san += " @" + w.group(1).split("(")[0]
     died = timed or rc < 0 or rc in (97, 98) or bool(san)
     diag = sum(1 for l in out.splitlines() if DIAG.search(l))
     subprocess.run(["rm", "-rf", wd])
@@ -166,7 +177,8 @@ def run_one(a):
 def site(san):
     """stable part of a sanitizer/death report: error kind and source location without numbers"""
     m = re.search(r"(AddressSanitizer: [a-z-]+|runtime error: [^0-9\n]{3,40}|timeout|signal \d+)", san)
-    return (m.group(1) if m else san[:40]).strip()
+    w = re.search(r" @(\S+)$", san)
+    return (m.group(1) if m else san[:40]).strip() + (" in " + w.group(1) if w else "")
 
 
 def run(tier, seed):
